@@ -131,9 +131,9 @@ def make_run(cfg):
     install_shims()
     from Pyro5 import config, nameserver, errors
     if cfg["backend"] == "memory":
-        watch = S.watch_functions(nameserver.NameServer, nameserver.MemoryStorage)
+        watch = S.watch_functions(nameserver.NameServer, nameserver.MemoryStorage, follow=True)
     else:
-        watch = S.watch_functions(nameserver.NameServer)
+        watch = S.watch_functions(nameserver.NameServer, follow=True, exclude=S.code_objects(nameserver.SqlStorage))
     threads = cfg["threads"]     # list of lists of op names
     init = INITS[cfg["init"]]
     dbdir = "/dev/shm" if os.path.isdir("/dev/shm") else tempfile.gettempdir()
